@@ -131,6 +131,12 @@ func targetsToRemove(graph *core.BuildGraph, filter, targets, targetsToKeep []co
 		for _, src := range target.AllLocalSourcePaths() {
 			keepSrcs[src] = true
 		}
+		// Data files are used by the kept target just as much as its sources are.
+		for _, datum := range target.AllData() {
+			if file, ok := datum.(core.FileLabel); ok {
+				keepSrcs[file.Paths(nil)[0]] = true
+			}
+		}
 	}
 	ret := make(core.BuildLabels, 0, len(keepTargets))
 	retSrcs := []string{}
